@@ -54,6 +54,16 @@ def many_ops(rng, prefix, plats, n_random):
         for n in range(1, 41, 3):
             ctr = min(counters(rng), M64 - n)
             ops.append(f"{prefix} xofmany {p} {rhex(rng, 32)} {rhex(rng, 64)} {rng.randrange(0, 65)} {ctr} {rng.randrange(256)} {n}")
+    # exhaustive carry grid for xof_many: n blocks whose counters cross 2^32 (and 2^33) at every position
+    for p in plats:
+        if "avx512" not in p:
+            continue
+        cv, blk = rhex(rng, 32), rhex(rng, 64)
+        for n in range(1, 41):
+            for k in range(0, n + 1):
+                ops.append(f"{prefix} xofmany {p} {cv} {blk} 64 {(1 << 32) - k} {rng.choice([0, 8, 11])} {n}")
+        for n in range(1, 20):
+            ops.append(f"{prefix} xofmany {p} {cv} {blk} {rng.randrange(65)} {M64 - n} 3 {n}")
     for _ in range(n_random):
         p = rng.choice(plats)
         n = rng.randrange(0, 40)
